@@ -234,9 +234,12 @@ class BasisTree(Tree):
                         i += j
 
         # recursive tree construction
+        # the virtual nodes carry the same number of quantum numbers as the physical ones
+        dummy_qn = [[0] * elementary_nodes[0].qn_size]
+
         def recursion(elementary_nodes_: List[TreeNodeBasis]) -> TreeNodeBasis:
             nonlocal dummy_i
-            node = TreeNodeBasis([BasisDummy((dummy_label, dummy_i))])
+            node = TreeNodeBasis([BasisDummy((dummy_label, dummy_i), sigmaqn=dummy_qn)])
             dummy_i += 1
             if len(elementary_nodes_) <= tree_order:
                 node.add_child(elementary_nodes_)
@@ -277,6 +280,9 @@ class BasisTree(Tree):
 
     @classmethod
     def t3ns(cls, basis_list: List[BasisSet], t3ns_label="T3NS virtual"):
+        # the virtual nodes carry the same number of quantum numbers as the physical ones
+        dummy_qn = [[0] * basis_list[0].sigmaqn.shape[1]]
+
         def recursion(parent, basis_list_: List[BasisSet]):
             nonlocal dummy_i
             if len(basis_list_) == 0:
@@ -292,14 +298,14 @@ class BasisTree(Tree):
                 return
             node1 = TreeNodeBasis(basis_list_[:1])
             parent.add_child(node1)
-            node2 = TreeNodeBasis([BasisDummy((t3ns_label, dummy_i))])
+            node2 = TreeNodeBasis([BasisDummy((t3ns_label, dummy_i), sigmaqn=dummy_qn)])
             dummy_i += 1
             node1.add_child(node2)
             for partition_ in approximate_partition(basis_list_[1:], 2):
                 recursion(node2, partition_)
 
         dummy_i = 0
-        root = TreeNodeBasis([BasisDummy((t3ns_label, dummy_i))])
+        root = TreeNodeBasis([BasisDummy((t3ns_label, dummy_i), sigmaqn=dummy_qn)])
         dummy_i += 1
         for partition in approximate_partition(basis_list, 3):
             recursion(root, partition)
